@@ -1,0 +1,22 @@
+//go:build verif
+
+package task
+
+import (
+	"github.com/mesos/mesos-go/api/v1/lib/scheduler"
+	"github.com/mesos/mesos-go/api/v1/lib/scheduler/calls"
+)
+
+// SetCallerForVerif replaces the HTTP client towards the Mesos master by the given Caller and
+// wraps it with the same call rules NewManager applies (framework id injection, metrics).
+// Must be called before Start.
+func (m *Manager) SetCallerForVerif(cli calls.Caller) {
+	m.schedulerState.cli = cli
+	m.schedulerState.setupCli()
+}
+
+// ResetSchedEventsChForVerif re-creates the package-level channel between the event handler and
+// the scheduler state machine (it is made at package initialisation).
+func ResetSchedEventsChForVerif() {
+	schedEventsCh = make(chan scheduler.Event_Type)
+}
